@@ -230,6 +230,10 @@ impl Case {
     }
 }
 
+/// values of `Sym::other` that select a header shape instead of a message type byte
+pub const NO_EXT_HEADER: u8 = 0xFD;
+pub const NO_TIMESTAMP: u8 = 0xFE;
+
 /// symbols -> messages (index = position, payload = position)
 fn gen_stream(t: &Table, base: u64, syms: &[Sym]) -> Vec<DltMessage> {
     let mut now = base;
@@ -245,15 +249,22 @@ fn gen_stream(t: &Table, base: u64, syms: &[Sym]) -> Vec<DltMessage> {
             Ts::Abs(ms) => ms as u64 * MS,
             Ts::Delay(ms) => now.saturating_sub(start.unwrap_or(0)).saturating_sub(ms as u64 * MS),
         };
-        let ts_dms = (ts_us / 100).min(u32::MAX as u64) as u32;
+        let mut ts_dms = (ts_us / 100).min(u32::MAX as u64) as u32;
         let kind = if sy.ctrl {
             CTRL_REQUEST_NV
-        } else if sy.other != 0 {
+        } else if sy.other != 0 && sy.other < NO_EXT_HEADER {
             sy.other
         } else {
             MTIN_LOG_INFO_V
         };
-        let mut m = mk_msg(i as u32, &ecu_of(sy.lc), now, ts_dms, true, Some((kind, 0, *b"APID", *b"CTID")), vec![i as u8]);
+        // header shapes of a normal message: without the timestamp field (its timestamp is 0, so the statement's
+        // calculated time is the lifecycle start) and without an extended header (no message type at all)
+        let with_tmsp = sy.other != NO_TIMESTAMP;
+        if !with_tmsp {
+            ts_dms = 0;
+        }
+        let ext = if sy.other == NO_EXT_HEADER { None } else { Some((kind, 0, *b"APID", *b"CTID")) };
+        let mut m = mk_msg(i as u32, &ecu_of(sy.lc), now, ts_dms, with_tmsp, ext, vec![i as u8]);
         m.lifecycle = id;
         out.push(m);
     }
@@ -735,6 +746,16 @@ impl Prop for C10 {
                 }
                 a
             }, "{A1,B1} x steps {0,1s} x late by {0,2s} x {normal, ctrl request, ctrl response, ctrl with reserved type 0 / 7}", (1, 3), W3, d3),
+            // normal messages without the timestamp field (timestamp 0: calculated time = lifecycle start) and without
+            // an extended header, among normal messages and control requests
+            f("header_shapes", Std, BASE, {
+                let mut a = alphabet(&[0, 3], &[0, 1000], &late3, &[false, true]);
+                for b in [NO_TIMESTAMP, NO_EXT_HEADER] {
+                    let extra: Vec<Sym> = a.iter().filter(|s| !s.ctrl && s.other == 0).map(|s| Sym { other: b, ..*s }).collect();
+                    a.extend(extra);
+                }
+                a
+            }, "{A1,B1} x steps {0,1s} x late by {0,2s,20s} x {normal, ctrl request, normal without timestamp field, normal without extended header}", (1, 3), W3, d3),
             // absolute timestamp grid over three lifecycles
             f("absolute_timestamps", Std, BASE, alphabet(&[0, 1, 3], &[0, 1000, 5000, -1000], &abs4, &[false]),
               "{A1,A2,B1} x steps {0,1s,5s,-1s} x abs ts {0,1s,2s,30s} x normal", (1, 3), W3, d3),
